@@ -95,7 +95,8 @@ def run_parse(out, tier, seed, want):
     for r in vlib.json_lines(p.stdout):
         if r["kind"] == "mismatch":
             w = r["features"]["what"]
-            mine = (w == "roundtrip") if want == "C01" else (w in ("panicked", "aborted", "timeout"))
+            # a panic means no tree at all for that text: C01 reports it too (aborts / timeouts are C02's alone)
+            mine = (w in ("roundtrip", "panicked")) if want == "C01" else (w in ("panicked", "aborted", "timeout"))
             if mine:
                 out.report(r["features"], r["detail"])
         elif r["kind"] == "summary":
